@@ -1326,18 +1326,31 @@ func (d *DotGit) RemoveRef(name plumbing.ReferenceName) error {
 		return err
 	}
 
-	path := d.fs.Join(".", name.String())
-	_, err := d.fs.Stat(path)
-	if err == nil {
-		err = d.fs.Remove(path)
-		// Drop down to remove it from the packed refs file, too.
-	}
-
-	if err != nil && !os.IsNotExist(err) {
+	// Remove the packed entry first and the loose file second: in the other
+	// order a failure in between leaves the (possibly stale) packed value
+	// visible for a reference whose current loose value is already gone.
+	if err := d.rewritePackedRefsWithoutRef(name); err != nil {
 		return err
 	}
 
-	return d.rewritePackedRefsWithoutRef(name)
+	path := d.fs.Join(".", name.String())
+	fi, err := d.fs.Stat(path)
+	if err == nil {
+		if fi.IsDir() {
+			// a directory holding nested references is not a loose value
+			// of this name: there is no loose file to delete
+			return nil
+		}
+		err = d.fs.Remove(path)
+	}
+
+	// ENOTDIR: a parent component of the name is itself a loose ref file,
+	// so no loose file of this name can exist.
+	if err != nil && !os.IsNotExist(err) && !errors.Is(err, syscall.ENOTDIR) {
+		return err
+	}
+
+	return nil
 }
 
 func refsRecvFunc(refs *[]*plumbing.Reference, seen map[plumbing.ReferenceName]bool) refsRecv {
